@@ -2,7 +2,7 @@
     option set on which every field of [SearchPremises] and [Terminates] holds. *)
 From Coq Require Import ZArith List Bool Lia.
 From Geo Require Import Model.EdgeQuery Proofs.C05_CellFacts Proofs.C08_Post Proofs.C08_Opt Proofs.C08_Heap Proofs.C08_Main Proofs.C08_Refute
-  Proofs.C08_Cells Proofs.C08_Split Proofs.C08_Term Proofs.C08_Cover Proofs.C08_Approx Proofs.C08_Final.
+  Proofs.C08_Cells Proofs.C08_Split Proofs.C08_Term Proofs.C08_Cover Proofs.C08_Cleanup Proofs.C08_Approx Proofs.C08_Final.
 Import ListNotations.
 Local Open Scope Z_scope.
 
@@ -53,8 +53,8 @@ Proof.
     { unfold init_entries. destruct (d_eqb zops lim (d_inf zops)); vm_compute; reflexivity. }
     rewrite E. split.
     + intros ce [ <- | [ <- | [] ] ]; (split; [unfold ex_vq; cbn; auto|]);
-        (split; [|cbn; discriminate]); intros es H e He; injection H as <-;
-        apply ex_in_index; cbn in He; intuition.
+        (split; [|cbn; discriminate]); intros es H; injection H as <-;
+        [exists (2 ^ 58, [(0, 0)])|exists (3 * 2 ^ 58, [(0, 1)])]; cbn; auto.
     + intros c [ <- | [ <- | [] ] ] _; [exists (2 ^ 58, Some [(0, 0)])|exists (3 * 2 ^ 58, Some [(0, 1)])];
         (split; [cbn; auto|left; split; reflexivity]).
   - intros e. rewrite ex_in_index. vm_compute. intuition.
@@ -85,8 +85,7 @@ Proof.
   assert (Ee : init_entries Z zops ex_target idx2 false lim = [(2 ^ 58, Some [(0, 0)]); (3 * 2 ^ 58, Some [(0, 1)])]).
   { unfold init_entries. rewrite E. vm_compute. reflexivity. }
   rewrite Ee. split; [|split; [|vm_compute; reflexivity]].
-  - intros ce [ <- | [ <- | [] ] ]; (split; [exists 1; split; [lia|split; [vm_compute; split; reflexivity|vm_compute; reflexivity]]|]);
-      (split; [|cbn; discriminate]); intros es H e He; injection H as <-; apply ex_in_index; cbn in He; intuition.
+  - intros id [ <- | [ <- | [] ] ]; exists 1; (split; [lia|split; [vm_compute; split; reflexivity|vm_compute; reflexivity]]).
   - intros c [ <- | [ <- | [] ] ] _; [exists (2 ^ 58, Some [(0, 0)])|exists (3 * 2 ^ 58, Some [(0, 1)])];
       (split; [cbn; auto|left; split; reflexivity]).
 Qed.
